@@ -11,6 +11,7 @@ import (
 	"go/constant"
 	"go/token"
 	"go/types"
+	"math"
 	"math/big"
 	"os"
 	"regexp"
@@ -42,6 +43,11 @@ type fval struct {
 	// variables live there and stay shared with it, also after that frame has returned)
 	bind []fval
 	heap map[*ssa.Alloc]fval
+	// a slice over a cell of the fold's memory
+	sl *fslice
+	// an iterator made by the standard library over known elements (maps.Keys, maps.Values, slices.Values ...): what it
+	// yields, in order (one or two values per step)
+	seq *fseq
 	// a function value provided by the folder itself (the yield handed to an iterator by maps.Collect and friends)
 	native func(args []fval) (fval, bool)
 	// a compiled regular expression (regexp.MustCompile of a constant pattern)
@@ -49,6 +55,19 @@ type fval struct {
 	// a non-nil error value; errID distinguishes values made by different errors.New / failing library calls (0 = unknown identity)
 	nonNil bool
 	errID  int
+}
+
+// fslice: a slice whose elements live in a cell of the fold's memory (made by make or by slicing a local array): elements
+// may be pointers into that memory and may be written through IndexAddr.
+type fslice struct {
+	base *ssa.Alloc
+	path []string
+	off  int
+	n    int
+}
+
+type fseq struct {
+	items [][]fval
 }
 
 type foldIter struct {
@@ -62,7 +81,7 @@ type faddr struct {
 }
 
 func (v fval) known() bool {
-	return v.native != nil || v.re != nil || v.k != nil || v.fn != nil || v.isNil || v.tuple != nil || v.fields != nil || v.addr != nil || v.cv != nil || v.cvptr != nil || v.iter != nil || v.nonNil
+	return v.seq != nil || v.sl != nil || v.native != nil || v.re != nil || v.k != nil || v.fn != nil || v.isNil || v.tuple != nil || v.fields != nil || v.addr != nil || v.cv != nil || v.cvptr != nil || v.iter != nil || v.nonNil
 }
 
 // structFval builds a struct value from a nested path map, e.g. {"Rat.Num": 0}.
@@ -117,6 +136,8 @@ func (v fval) String() string {
 		return "&" + v.cvptr.vstr()
 	case v.addr != nil:
 		return "&cell" + strings.Join(v.addr.path, ".")
+	case v.sl != nil:
+		return fmt.Sprintf("slice[%d:%d]", v.sl.off, v.sl.off+v.sl.n)
 	case v.nonNil:
 		return fmt.Sprintf("error#%d", v.errID)
 	case v.re != nil:
@@ -154,6 +175,14 @@ type folder struct {
 	heap map[*ssa.Alloc]fval
 	// cellType: the types of the cells allocations were given
 	cellType map[*ssa.Alloc]types.Type
+	// incomplete: calls that were not followed to their end although they may have had effects on the fold's memory (a
+	// callee that does not fold, a library function without a transfer that is handed a pointer). A fold that reads its
+	// answer out of memory afterwards must not claim anything when this is not empty.
+	incomplete []string
+	// failedCalls: every call inside the fold that was not followed to its end (whatever it was handed)
+	failedCalls []string
+	// panicked: an instruction that panics for the values at hand was met (the fold ends there)
+	panicked string
 	// maxDepth overrides the default bound on the depth of followed calls
 	maxDepth int
 	// maxSteps overrides the default budget of basic blocks visited
@@ -190,6 +219,22 @@ func (f *folder) foldMethod(fn *ssa.Function, recv fval, rest []fval) (fval, err
 
 // foldCallEnv: as foldCall, for a closure: bind gives its captured values and mem is the memory of the function that
 // created it (captured variables are shared with it).
+// stdFollowable: functions of the standard library's generic helper packages whose bodies are ordinary Go the folder can run.
+func stdFollowable(fn *ssa.Function) bool {
+	o := fn
+	if fn.Origin() != nil {
+		o = fn.Origin()
+	}
+	if o.Pkg == nil || o.Pkg.Pkg == nil || len(fn.Blocks) == 0 {
+		return false
+	}
+	switch o.Pkg.Pkg.Path() {
+	case "maps", "slices", "cmp":
+		return true
+	}
+	return false
+}
+
 func (f *folder) foldCallEnv(fn *ssa.Function, args []fval, bind []fval, shared map[*ssa.Alloc]fval) (fval, error) {
 	if fn == nil {
 		return top, fmt.Errorf("nil function")
@@ -203,7 +248,11 @@ func (f *folder) foldCallEnv(fn *ssa.Function, args []fval, bind []fval, shared 
 		if r, ok, err := f.iterTransfer(fn, args); ok {
 			return r, err
 		}
-		return libTransfer(fn, args)
+		r, err := libTransfer(fn, args)
+		if err == nil || !stdFollowable(fn) {
+			return r, err
+		}
+		// a small generic helper of the standard library (maps.Copy, slices.Concat, cmp.Or ...): plain Go, folded like the repository's own code
 	}
 	if len(fn.Blocks) == 0 {
 		return top, fmt.Errorf("%s has no body", fname(fn))
@@ -274,7 +323,13 @@ func (f *folder) foldCallEnv(fn *ssa.Function, args []fval, bind []fval, shared 
 			case *ssa.If:
 				cv := f.val(env, x.Cond)
 				if cv.k == nil || cv.k.Kind() != constant.Bool {
-					return top, fmt.Errorf("branch condition does not fold in %s (block %d)", fname(fn), b.Index)
+					detail := ""
+					if foldDebugCalls {
+						if bo, ok := x.Cond.(*ssa.BinOp); ok {
+							detail = fmt.Sprintf(" [%s %s %s]", f.val(env, bo.X).String(), bo.Op, f.val(env, bo.Y).String())
+						}
+					}
+					return top, fmt.Errorf("branch condition does not fold in %s (block %d)%s", fname(fn), b.Index, detail)
 				}
 				prev = b
 				if constant.BoolVal(cv.k) {
@@ -304,6 +359,9 @@ func (f *folder) foldCallEnv(fn *ssa.Function, args []fval, bind []fval, shared 
 				return top, fmt.Errorf("panics")
 			default:
 				f.evalInstr(env, mem, in)
+				if f.panicked != "" {
+					return top, fmt.Errorf("panics: %s", f.panicked)
+				}
 			}
 		}
 		return top, fmt.Errorf("fell off block %d of %s", b.Index, fname(fn))
@@ -419,13 +477,76 @@ func (f *folder) evalInstr(env map[ssa.Value]fval, mem map[*ssa.Alloc]fval, in s
 		v.t = x.Type()
 		env[x] = v
 	case *ssa.MakeInterface:
-		// a constant boxed into an interface keeps its value (only used for formatting operands)
+		// a value boxed into an interface keeps its value; its static type is remembered as the dynamic type
 		v := f.val(env, x.X)
 		if v.k != nil {
+			env[x] = v
+		} else if v.addr != nil || v.isNil && false {
+			v.t = x.X.Type()
 			env[x] = v
 		} else {
 			env[x] = top
 		}
+	case *ssa.ChangeInterface:
+		env[x] = f.val(env, x.X)
+	case *ssa.TypeAssert:
+		v := f.val(env, x.X)
+		boolT := types.Typ[types.Bool]
+		dyn := f.dynType(v)
+		switch {
+		case v.isNil && x.CommaOk:
+			env[x] = fval{tuple: []fval{zeroFval(x.AssertedType), {k: constant.MakeBool(false), t: boolT}}}
+		case dyn != nil:
+			holds := false
+			if it, isIface := x.AssertedType.Underlying().(*types.Interface); isIface {
+				holds = types.Implements(dyn, it)
+			} else {
+				holds = types.Identical(dyn, x.AssertedType)
+			}
+			switch {
+			case x.CommaOk && holds:
+				env[x] = fval{tuple: []fval{v, {k: constant.MakeBool(true), t: boolT}}}
+			case x.CommaOk:
+				env[x] = fval{tuple: []fval{zeroFval(x.AssertedType), {k: constant.MakeBool(false), t: boolT}}}
+			case holds:
+				env[x] = v
+			default:
+				env[x] = top
+			}
+		default:
+			env[x] = top
+		}
+	case *ssa.MakeSlice:
+		n, okN := int64(-1), false
+		if lv := f.val(env, x.Len); lv.k != nil && lv.k.Kind() == constant.Int {
+			n, okN = constant.Int64Val(lv.k)
+		}
+		st, isSlice := x.Type().Underlying().(*types.Slice)
+		// a capacity that is known and impossible (negative, below the length, or astronomically large - an unsigned
+		// subtraction that wrapped): makeslice panics
+		if cv := f.val(env, x.Cap); cv.k != nil && cv.k.Kind() == constant.Int && okN {
+			if cp, exact := constant.Int64Val(cv.k); !exact || cp < n || cp > 1<<40 {
+				f.panicked = "makeslice: cap out of range (" + cv.k.ExactString() + ")"
+			}
+		}
+		if okN && (n < 0 || n > 1<<40) {
+			f.panicked = "makeslice: len out of range"
+		}
+		if !okN || !isSlice || n < 0 || n > 4096 {
+			env[x] = top
+			return
+		}
+		cell := new(ssa.Alloc)
+		if f.cellType == nil {
+			f.cellType = map[*ssa.Alloc]types.Type{}
+		}
+		f.cellType[cell] = types.NewPointer(types.NewArray(st.Elem(), n))
+		fs := map[string]fval{}
+		for i := int64(0); i < n; i++ {
+			fs[fmt.Sprintf("#%d", i)] = zeroFval(st.Elem())
+		}
+		mem[cell] = fval{fields: fs}
+		env[x] = fval{sl: &fslice{base: cell, n: int(n)}, t: x.Type()}
 	case *ssa.MakeClosure:
 		if g, ok := x.Fn.(*ssa.Function); ok {
 			var bs []fval
@@ -455,6 +576,11 @@ func (f *folder) evalInstr(env map[ssa.Value]fval, mem map[*ssa.Alloc]fval, in s
 			}
 			return
 		}
+		if bi, ok := x.Call.Value.(*ssa.Builtin); ok && bi.Name() == "ssa:wrapnilchk" && len(x.Call.Args) >= 1 {
+			// the nil check of a method wrapper hands its first argument on
+			env[x] = f.val(env, x.Call.Args[0])
+			return
+		}
 		if bi, ok := x.Call.Value.(*ssa.Builtin); ok && bi.Name() == "append" && len(x.Call.Args) == 2 {
 			a, b := f.val(env, x.Call.Args[0]), f.val(env, x.Call.Args[1])
 			la, okA := a.cv.(*ListV)
@@ -466,6 +592,22 @@ func (f *folder) evalInstr(env map[ssa.Value]fval, mem map[*ssa.Alloc]fval, in s
 				nl := &ListV{T: x.Type()}
 				nl.Elems = append(append(nl.Elems, la.Elems...), lb.Elems...)
 				env[x] = fval{cv: nl, t: x.Type()}
+				return
+			}
+			// slices over the fold's memory (elements may be pointers): a fresh cell with the elements of both
+			ea, ok1 := f.sliceElems(a, mem)
+			eb, ok2 := f.sliceElems(b, mem)
+			if b.isNil {
+				eb, ok2 = nil, true
+			}
+			if ok1 && ok2 {
+				cell := new(ssa.Alloc)
+				fs := map[string]fval{}
+				for i, e := range append(append([]fval{}, ea...), eb...) {
+					fs[fmt.Sprintf("#%d", i)] = e
+				}
+				mem[cell] = fval{fields: fs}
+				env[x] = fval{sl: &fslice{base: cell, n: len(ea) + len(eb)}, t: x.Type()}
 			} else {
 				env[x] = top
 			}
@@ -476,6 +618,10 @@ func (f *folder) evalInstr(env map[ssa.Value]fval, mem map[*ssa.Alloc]fval, in s
 			if a.isNil {
 				// a nil slice or map has no elements
 				env[x] = fval{k: constant.MakeInt64(0), t: x.Type()}
+				return
+			}
+			if a.sl != nil {
+				env[x] = fval{k: constant.MakeInt64(int64(a.sl.n)), t: x.Type()}
 				return
 			}
 			switch cv := a.cv.(type) {
@@ -501,6 +647,36 @@ func (f *folder) evalInstr(env map[ssa.Value]fval, mem map[*ssa.Alloc]fval, in s
 			if r, ok := f.invokeRecv(x, f.val(env, x.Call.Value), as); ok {
 				env[x] = r
 				return
+			}
+		}
+		if x.Call.IsInvoke() {
+			// the receiver's dynamic type is known (a pointer into the fold's memory): the method that will run is known
+			recv := f.val(env, x.Call.Value)
+			if dyn := f.dynType(recv); dyn != nil {
+				if sel := f.c.Prog.MethodSets.MethodSet(dyn).Lookup(x.Call.Method.Pkg(), x.Call.Method.Name()); sel != nil {
+					if m := f.c.Prog.MethodValue(sel); m != nil && len(m.Blocks) > 0 {
+						as := []fval{recv}
+						for _, a := range x.Call.Args {
+							as = append(as, f.val(env, a))
+						}
+						if foldDebugCalls && os.Getenv("CRDCHECK_DUMPWRAP") != "" {
+							m.WriteTo(os.Stderr)
+							fmt.Fprintf(os.Stderr, "  recv=%s cell=%s\n", recv.String(), mem[recv.addr.base].String())
+						}
+						if r, err := f.foldCallEnv(m, as, nil, mem); err == nil {
+							env[x] = r
+							return
+						} else {
+							if foldDebugCalls {
+								fmt.Fprintf(os.Stderr, "  fold: invoke of %s fails: %v\n", fname(m), err)
+							}
+							f.incomplete = append(f.incomplete, fname(m)+": "+err.Error())
+							f.failedCalls = append(f.failedCalls, fname(m)+": "+err.Error())
+						}
+						env[x] = top
+						return
+					}
+				}
 			}
 		}
 		if x.Call.IsInvoke() && f.invoke != nil {
@@ -533,6 +709,39 @@ func (f *folder) evalInstr(env map[ssa.Value]fval, mem map[*ssa.Alloc]fval, in s
 			}
 		}
 		if callee == nil && !x.Call.IsInvoke() {
+			if fv := f.val(env, x.Call.Value); fv.seq != nil && len(x.Call.Args) == 1 {
+				// ranging over a library iterator: the loop body (yield) is called for each element until it answers false
+				yield := f.val(env, x.Call.Args[0])
+				for _, it := range fv.seq.items {
+					var r fval
+					var err error
+					switch {
+					case yield.native != nil:
+						var ok bool
+						r, ok = yield.native(it)
+						if !ok {
+							err = fmt.Errorf("yield")
+						}
+					case yield.fn != nil:
+						shared := mem
+						if yield.bind != nil && yield.heap != nil {
+							shared = yield.heap
+						}
+						r, err = f.foldCallEnv(yield.fn, it, yield.bind, shared)
+					default:
+						err = fmt.Errorf("unknown yield")
+					}
+					if err != nil || r.k == nil || r.k.Kind() != constant.Bool {
+						env[x] = top
+						return
+					}
+					if !constant.BoolVal(r.k) {
+						break
+					}
+				}
+				env[x] = fval{tuple: []fval{}}
+				return
+			}
 			if fv := f.val(env, x.Call.Value); fv.native != nil {
 				var as []fval
 				for _, a := range x.Call.Args {
@@ -558,6 +767,8 @@ func (f *folder) evalInstr(env map[ssa.Value]fval, mem map[*ssa.Alloc]fval, in s
 					return
 				}
 			}
+			f.incomplete = append(f.incomplete, "a call of an unknown function value in "+fname(x.Parent()))
+			f.failedCalls = append(f.failedCalls, "a call of an unknown function value in "+fname(x.Parent()))
 			env[x] = top
 			return
 		}
@@ -587,7 +798,7 @@ func (f *folder) evalInstr(env map[ssa.Value]fval, mem map[*ssa.Alloc]fval, in s
 			shared = heap
 		}
 		r, err := f.foldCallEnv(target, as, bind, shared)
-		if err != nil || !f.c.isRepoFunc(target) {
+		if (err != nil || !(f.c.isRepoFunc(target) || stdFollowable(target))) && !diagnosticCallee(fname(target)) && !strings.HasPrefix(fname(target), "fmt.Sprint") && fname(target) != "encoding/json.Marshal" {
 			// not followed to its end (or a library function): whatever it was handed by pointer is unknown now
 			for _, b := range ptrArgs {
 				delete(mem, b)
@@ -596,6 +807,31 @@ func (f *folder) evalInstr(env map[ssa.Value]fval, mem map[*ssa.Alloc]fval, in s
 		if err != nil {
 			if foldDebugCalls {
 				fmt.Fprintf(os.Stderr, "  fold: call of %s fails: %v\n", fname(target), err)
+			}
+			// what the callee would have done to the memory is not known
+			tn := fname(target)
+			if !diagnosticCallee(tn) {
+				f.failedCalls = append(f.failedCalls, tn+": "+err.Error())
+			}
+			hasPtr := len(ptrArgs) > 0 || bind != nil
+			for _, a := range as {
+				if a.sl != nil || a.fn != nil {
+					hasPtr = true
+				}
+			}
+			pure := diagnosticCallee(tn) || strings.HasPrefix(tn, "fmt.Sprint") || tn == "fmt.Errorf" || tn == "encoding/json.Marshal" || strings.HasPrefix(tn, "strings.") || strings.HasPrefix(tn, "strconv.") || strings.HasPrefix(tn, "errors.") || strings.HasPrefix(tn, "math.") || strings.HasPrefix(tn, "unicode.")
+			for _, a := range as {
+				if a.cv != nil || a.addr != nil || a.cvptr != nil {
+					hasPtr = true
+				}
+				for _, fv := range a.fields {
+					if fv.cv != nil || fv.addr != nil || fv.sl != nil || fv.fn != nil {
+						hasPtr = true
+					}
+				}
+			}
+			if hasPtr && !pure {
+				f.incomplete = append(f.incomplete, tn+": "+err.Error())
 			}
 			env[x] = top
 		} else {
@@ -641,6 +877,11 @@ func (f *folder) evalInstr(env map[ssa.Value]fval, mem map[*ssa.Alloc]fval, in s
 			mv.Entries = append(mv.Entries, KV{K: kv, V: vv})
 		}
 	case *ssa.Range:
+		if rv := f.val(env, x.X); rv.isNil {
+			// ranging over a nil map: no rounds
+			env[x] = fval{iter: &foldIter{}}
+			return
+		}
 		if mv, ok := f.val(env, x.X).cv.(*MapV); ok && !f.poisoned[mv] {
 			es := append([]KV{}, mv.Entries...)
 			if f.reverseMaps {
@@ -684,6 +925,33 @@ func (f *folder) evalInstr(env map[ssa.Value]fval, mem map[*ssa.Alloc]fval, in s
 		}
 		env[x] = foldLookup(x, f.val(env, x.X), f.val(env, x.Index))
 	case *ssa.Slice:
+		// a slice of a slice that lives in the fold's memory
+		if sv := f.val(env, x.X); sv.sl != nil && x.Max == nil {
+			lo, hi := 0, sv.sl.n
+			okB := true
+			if x.Low != nil {
+				if v := f.val(env, x.Low); v.k != nil && v.k.Kind() == constant.Int {
+					i, _ := constant.Int64Val(v.k)
+					lo = int(i)
+				} else {
+					okB = false
+				}
+			}
+			if x.High != nil {
+				if v := f.val(env, x.High); v.k != nil && v.k.Kind() == constant.Int {
+					i, _ := constant.Int64Val(v.k)
+					hi = int(i)
+				} else {
+					okB = false
+				}
+			}
+			if okB && 0 <= lo && lo <= hi && hi <= sv.sl.n {
+				env[x] = fval{sl: &fslice{base: sv.sl.base, path: sv.sl.path, off: sv.sl.off + lo, n: hi - lo}, t: x.Type()}
+			} else {
+				env[x] = top
+			}
+			return
+		}
 		// a substring of a known string with known bounds
 		if sv := f.val(env, x.X); sv.k != nil && sv.k.Kind() == constant.String && x.Max == nil {
 			str := constant.StringVal(sv.k)
@@ -767,11 +1035,24 @@ func (f *folder) evalInstr(env map[ssa.Value]fval, mem map[*ssa.Alloc]fval, in s
 						env[x] = fval{cv: lv, t: x.Type()}
 						return
 					}
+					// elements that are not plain values (pointers into the fold's memory): a slice over the cell itself
+					env[x] = fval{sl: &fslice{base: a.addr.base, n: int(at.Len())}, t: x.Type()}
+					return
 				}
 			}
 		}
 		env[x] = top
 	case *ssa.IndexAddr:
+		if sv := f.val(env, x.X); sv.sl != nil {
+			if iv := f.val(env, x.Index); iv.k != nil && iv.k.Kind() == constant.Int {
+				if i, ok := constant.Int64Val(iv.k); ok && 0 <= i && int(i) < sv.sl.n {
+					env[x] = fval{addr: &faddr{base: sv.sl.base, path: append(append([]string{}, sv.sl.path...), fmt.Sprintf("#%d", sv.sl.off+int(i)))}}
+					return
+				}
+			}
+			env[x] = top
+			return
+		}
 		if a := f.val(env, x.X); a.addr != nil {
 			if iv := f.val(env, x.Index); iv.k != nil && iv.k.Kind() == constant.Int {
 				env[x] = fval{addr: &faddr{base: a.addr.base, path: append(append([]string{}, a.addr.path...), "#"+iv.k.ExactString())}}
@@ -879,7 +1160,7 @@ func foldBinOp(op token.Token, a, b fval, t types.Type) fval {
 	if (op == token.EQL || op == token.NEQ) && a.k == nil && b.k == nil {
 		an, bn := a.isNil, b.isNil
 		// a known address (of a cell, of a table value) or a known function is not nil
-		ann, bnn := a.nonNil || a.cvptr != nil || a.addr != nil || a.fn != nil, b.nonNil || b.cvptr != nil || b.addr != nil || b.fn != nil
+		ann, bnn := a.nonNil || a.cvptr != nil || a.addr != nil || a.fn != nil || a.cv != nil || a.sl != nil, b.nonNil || b.cvptr != nil || b.addr != nil || b.fn != nil || b.cv != nil || b.sl != nil
 		if (an || ann) && (bn || bnn) && (an || bn) {
 			eq := an && bn
 			if op == token.NEQ {
@@ -950,6 +1231,12 @@ func foldConvert(a fval, t types.Type) fval {
 		}
 		if b.Info()&types.IsFloat != 0 && (a.k.Kind() == constant.Int || a.k.Kind() == constant.Float) {
 			return fval{k: constant.ToFloat(a.k), t: t}
+		}
+		// a floating-point value converted to an integer type: the fraction is discarded (truncation towards zero)
+		if b.Info()&types.IsInteger != 0 && a.k.Kind() == constant.Float {
+			if fv, _ := constant.Float64Val(a.k); !math.IsNaN(fv) && !math.IsInf(fv, 0) && math.Abs(fv) < 1<<62 {
+				return fval{k: wrapToType(constant.MakeInt64(int64(math.Trunc(fv))), t), t: t}
+			}
 		}
 	}
 	return top
@@ -1032,6 +1319,50 @@ func libTransfer(fn *ssa.Function, args []fval) (fval, error) {
 				r = strings.Count(a, b)
 			}
 			return fval{k: constant.MakeInt64(int64(r)), t: types.Typ[types.Int]}, nil
+		}
+	case "math.Round", "math.Floor", "math.Ceil", "math.Trunc", "math.Abs":
+		if len(args) == 1 && args[0].k != nil && (args[0].k.Kind() == constant.Float || args[0].k.Kind() == constant.Int) {
+			v, _ := constant.Float64Val(constant.ToFloat(args[0].k))
+			switch name {
+			case "math.Round":
+				v = math.Round(v)
+			case "math.Floor":
+				v = math.Floor(v)
+			case "math.Ceil":
+				v = math.Ceil(v)
+			case "math.Trunc":
+				v = math.Trunc(v)
+			default:
+				v = math.Abs(v)
+			}
+			return fval{k: constant.MakeFloat64(v), t: types.Typ[types.Float64]}, nil
+		}
+	case "gitlab.com/gomidi/midi/v2/smf.MetricTicks.Ticks4th":
+		// doc: Ticks4th returns the ticks of a quarter note - the resolution itself (960 when the resolution is 0)
+		if q, ok := argInt(0); ok && len(args) == 1 {
+			if q == 0 {
+				q = 960
+			}
+			return fval{k: constant.MakeInt64(q), t: types.Typ[types.Uint32]}, nil
+		}
+	case "errors.Join":
+		// doc: Join returns nil if every value in errs is nil, otherwise an error that wraps the non-nil ones
+		if len(args) == 1 {
+			if args[0].isNil {
+				return fval{isNil: true}, nil
+			}
+			if l, ok := args[0].cv.(*ListV); ok {
+				anyErr := false
+				for _, e := range l.Elems {
+					if _, isNil := e.(*NilV); !isNil {
+						anyErr = true
+					}
+				}
+				if !anyErr {
+					return fval{isNil: true}, nil
+				}
+				return fval{nonNil: true}, nil
+			}
 		}
 	case "strings.CutPrefix", "strings.CutSuffix":
 		if a, b, ok := twoStrings(args); ok {
@@ -1216,7 +1547,8 @@ func libTransfer(fn *ssa.Function, args []fval) (fval, error) {
 			case "regexp.Regexp.FindStringSubmatch":
 				m := args[0].re.FindStringSubmatch(text)
 				if m == nil {
-					return fval{cv: &ListV{T: types.NewSlice(types.Typ[types.String])}, isNil: false}, nil
+					// doc: a return value of nil indicates no match
+					return fval{isNil: true, t: types.NewSlice(types.Typ[types.String])}, nil
 				}
 				return fval{cv: strs(m)}, nil
 			default:
@@ -1286,6 +1618,10 @@ func fromVal(v Val) fval {
 		return fval{cv: v}
 	case *PtrV:
 		return fval{cvptr: x.Elem}
+	case *RefV:
+		return fval{addr: x.Addr}
+	case *NilV:
+		return fval{isNil: true, t: x.T}
 	case *FuncV:
 		if x.F == nil {
 			return fval{fn: x.Fn, t: x.Fn.Signature}
@@ -1676,6 +2012,16 @@ func toVal(v fval, t types.Type, c *Ctx) (Val, bool) {
 		// a table value inside a table (a set of names in a signature row)
 		return v.cv, true
 	}
+	if v.addr != nil {
+		// a pointer into the fold's memory
+		return &RefV{Addr: v.addr}, true
+	}
+	if v.isNil {
+		switch t.Underlying().(type) {
+		case *types.Pointer, *types.Slice, *types.Map, *types.Interface, *types.Signature:
+			return &NilV{T: t}, true
+		}
+	}
 	if v.fn != nil && len(v.bind) == 0 {
 		// a function in a table (a function literal of the initialiser that captures nothing, or a named function)
 		if _, isSig := t.Underlying().(*types.Signature); isSig {
@@ -1874,6 +2220,14 @@ func (f *folder) iterTransfer(fn *ssa.Function, args []fval) (fval, bool, error)
 	boolT := types.Typ[types.Bool]
 	yes := fval{k: constant.MakeBool(true), t: boolT}
 	run := func(seq fval, yield fval) error {
+		if seq.seq != nil {
+			for _, it := range seq.seq.items {
+				if r, ok := yield.native(it); !ok || r.k == nil {
+					return fmt.Errorf("%s: an element that is not known", name)
+				}
+			}
+			return nil
+		}
 		if seq.fn == nil {
 			return fmt.Errorf("%s: the iterator is not a known function", name)
 		}
@@ -1885,6 +2239,55 @@ func (f *folder) iterTransfer(fn *ssa.Function, args []fval) (fval, bool, error)
 		return err
 	}
 	switch name {
+	case "maps.Keys", "maps.Values", "maps.All":
+		// doc: an iterator over the keys / values / pairs of m, in the order a range over m visits them (unspecified;
+		// here: the order of insertion, reversed under reverseMaps)
+		if len(args) != 1 {
+			return top, false, nil
+		}
+		if args[0].isNil {
+			return fval{seq: &fseq{}}, true, nil
+		}
+		mv, ok := args[0].cv.(*MapV)
+		if !ok || (f.poisoned != nil && f.poisoned[mv]) {
+			return top, false, nil
+		}
+		es := append([]KV{}, mv.Entries...)
+		if f.reverseMaps {
+			for i, j := 0, len(es)-1; i < j; i, j = i+1, j-1 {
+				es[i], es[j] = es[j], es[i]
+			}
+		}
+		f.sawMapRange = true
+		sq := &fseq{}
+		for _, e := range es {
+			switch name {
+			case "maps.Keys":
+				sq.items = append(sq.items, []fval{fromVal(e.K)})
+			case "maps.Values":
+				sq.items = append(sq.items, []fval{fromVal(e.V)})
+			default:
+				sq.items = append(sq.items, []fval{fromVal(e.K), fromVal(e.V)})
+			}
+		}
+		return fval{seq: sq}, true, nil
+	case "slices.Values", "slices.All":
+		if len(args) != 1 {
+			return top, false, nil
+		}
+		es, ok := f.sliceElems(args[0], f.heap)
+		if !ok {
+			return top, false, nil
+		}
+		sq := &fseq{}
+		for i, e := range es {
+			if name == "slices.All" {
+				sq.items = append(sq.items, []fval{{k: constant.MakeInt64(int64(i)), t: types.Typ[types.Int]}, e})
+			} else {
+				sq.items = append(sq.items, []fval{e})
+			}
+		}
+		return fval{seq: sq}, true, nil
 	case "maps.Collect":
 		if len(args) != 1 || fn.Signature.Results().Len() != 1 {
 			return top, false, nil
@@ -1975,4 +2378,51 @@ func (f *folder) iterTransfer(fn *ssa.Function, args []fval) (fval, bool, error)
 		return fval{cv: nl, t: nl.T}, true, nil
 	}
 	return top, false, nil
+}
+
+// dynType: the dynamic type of a value that is a pointer to a whole cell of the fold's memory (what an interface holding
+// it would answer in a type switch or a method call); nil when it is not known.
+func (f *folder) dynType(v fval) types.Type {
+	if v.addr == nil || len(v.addr.path) != 0 || f.cellType == nil {
+		return nil
+	}
+	return f.cellType[v.addr.base]
+}
+
+// sliceElems: the elements of a slice value, whichever way it is held (an immutable list, a slice over the fold's
+// memory, nil).
+func (f *folder) sliceElems(v fval, mem map[*ssa.Alloc]fval) ([]fval, bool) {
+	switch {
+	case v.isNil:
+		return nil, true
+	case v.sl != nil:
+		cur, ok := mem[v.sl.base]
+		for _, p := range v.sl.path {
+			if !ok || cur.fields == nil {
+				return nil, false
+			}
+			cur, ok = cur.fields[p]
+		}
+		if !ok || (cur.fields == nil && v.sl.n > 0) {
+			return nil, false
+		}
+		var out []fval
+		for i := 0; i < v.sl.n; i++ {
+			e, has := cur.fields[fmt.Sprintf("#%d", v.sl.off+i)]
+			if !has {
+				return nil, false
+			}
+			out = append(out, e)
+		}
+		return out, true
+	case v.cv != nil:
+		if l, ok := v.cv.(*ListV); ok {
+			var out []fval
+			for _, e := range l.Elems {
+				out = append(out, fromVal(e))
+			}
+			return out, true
+		}
+	}
+	return nil, false
 }
